@@ -44,10 +44,21 @@ func (WebSocket) makeResponder(reqPacket []byte, sharedSecret [32]byte) Responde
 	respond := func(originalConn net.Conn, sessionKey [32]byte, randSource io.Reader) (preparedConn net.Conn, err error) {
 		handler := newWsHandshakeHandler()
 
-		// For an explanation of the following 3 lines, see the comments in websocketAux.go
-		http.Serve(newWsAcceptor(originalConn, reqPacket), handler)
+		// For an explanation of the following lines, see the comments in websocketAux.go
+		srv := &http.Server{Handler: handler, ConnState: func(_ net.Conn, state http.ConnState) {
+			if state == http.StateClosed {
+				handler.done(errWsNotUpgraded)
+			}
+		}}
+		srv.Serve(newWsAcceptor(originalConn, reqPacket))
 
-		<-handler.finished
+		if err = <-handler.finished; err != nil {
+			// no websocket connection will come out of this: say so instead of waiting forever, and do not
+			// leave the connection to net/http's keep-alive loop
+			originalConn.Close()
+			err = fmt.Errorf("failed to upgrade to websocket: %v", err)
+			return
+		}
 		preparedConn = handler.conn
 		nonce := make([]byte, 12)
 		common.RandRead(randSource, nonce)
